@@ -3,7 +3,7 @@
    formatters re-translated from LanguageTotalsDelta / ScanTotalsDelta /
    ScanTotals on every run (Gen/GenDelta.v) and the overview model
    Report/Render.v; the findings part is Agg/CheckFlow.v (shared with C02). *)
-From Verif Require Import Base BaseProofs GenDelta Render RenderProofsNum RenderProofs GenThresholds Thresholds CheckFlow.
+From Verif Require Import Base BaseProofs GenDelta Render RenderProofsNum RenderProofs GenThresholds Thresholds CheckFlow GenCompare TieProofs.
 From Coq Require Import Permutation Sorted.
 Open Scope Z_scope.
 
@@ -61,6 +61,11 @@ Theorem C18_findings : forall full files,
   if (negb full && (10 <? n))%bool then (firstn 10 all, Some (n - 10)) else (all, None).
 Proof. intros full files. exact (conj (findings_formats_agree full files) (findings_view_spec full files)). Qed.
 
+(* the totals row is shown exactly when more than one language is listed: the model's test is the one
+   ScanResultTable and format_markdown state (regenerated on this run) *)
+Theorem C18_totals_row_tied : forall n, (1 <? n) = text_totals_row n /\ (1 <? n) = md_totals_row n.
+Proof. exact tie_totals_row. Qed.
+
 Print Assumptions C18_cell_number.
 Print Assumptions C18_delta_iff.
 Print Assumptions C18_rows.
@@ -74,3 +79,4 @@ Example C18_example :
   = [[[67]; [49]; [50;32;40;45;49;41]; [52;48;48]; [48]; [49;32;40;43;49;41]];
      [[80]; [51;32;40;43;49;41]; [57]; [49;50;48;32;40;43;50;48;41]; [49]; [48]]].
 Proof. vm_compute. reflexivity. Qed.
+Print Assumptions C18_totals_row_tied.
